@@ -433,15 +433,15 @@ func c07Scenarios(tier string) []*world.Scenario {
 
 func init() {
 	register(&Check{ID: "C09", Level: "model_checking",
-		Rule:      "one open-loop client sending 2-4 forwarded requests (GET@A, GET@B, MGET split A+B) in separate chunks; every interleaving of client reads, task runs and backend reply deliveries within the bound; the invariant 'replies of requests 1..m read by the proxy => client has >= m replies' is evaluated at EVERY quiescent point (epoll_wait entry); non-trivial = >= 1 deviation from the synchronous schedule; distinct = distinct observable outcomes",
+		Rule:      "one open-loop client sending 2-4 forwarded requests (GET@A, GET@B, MGET split A+B) in separate chunks, also as a slow reader whose flushes meet EAGAIN / short writes; every interleaving of client reads, task runs and backend reply deliveries within the bound; the invariant 'replies of requests 1..m read by the proxy => client has >= m replies' is evaluated at EVERY quiescent point (epoll_wait entry); non-trivial = >= 1 deviation from the synchronous schedule; distinct = distinct observable outcomes",
 		Scenarios: c09Scenarios, BudgetQuick: 90, BudgetThorough: 1200,
 		Assumptions: []string{"'promptly' is decided in logical time: before the event loop next blocks", "simulated kernel; stateless node model"}})
 	register(&Check{ID: "C10", Level: "model_checking",
-		Rule:      "1-3 clients whose pipelines (SET/GET/MSET/MGET/DEL on keys of one node, incl. two fragments of one request on the same node) all land on node A's single connection; stateful node model; every interleaving within the bound; oracle: per (client,node) command order = send order, and reads observe the preceding writes; non-trivial = >= 1 deviation; distinct = observable outcomes",
+		Rule:      "1-3 clients whose pipelines (SET/GET/MSET/MGET/DEL on keys of one node, incl. two fragments of one request on the same node) all land on node A's single connection; a slow node whose backlog is drained in pieces; another client closed for invalid input in the loop batch that routed its valid request; stateful node model; every interleaving within the bound; oracle: per (client,node) command order = send order, and reads observe the preceding writes; non-trivial = >= 1 deviation; distinct = observable outcomes",
 		Scenarios: c10Scenarios, BudgetQuick: 90, BudgetThorough: 1200,
 		Assumptions: []string{"server_connections = 1 as the property states", "replication inside a replica set is instantaneous in the node model"}})
 	register(&Check{ID: "C07", Level: "model_checking",
-		Rule:      "MGET/DEL/MSET key lists hitting 2-3 fragments on 2-3 nodes (duplicates, absent, empty and CRLF-bearing values, two fragments on one backend connection), followed by a PING; ALL routing orders (map-order choice) x ALL arrival orders of the fragment replies (unbounded) and reply segmentations (single cuts) within the bound; plus one 600/3000-key list; oracle: reference reassembly; non-trivial = >= 1 deviation; distinct = observable outcomes",
+		Rule:      "MGET/DEL/MSET key lists hitting 2-3 fragments on 2-3 nodes (duplicates, absent, empty and CRLF-bearing values, two fragments on one backend connection), followed by a PING; one fragment answered with a redirect first; two fragment replies of one node in one read; ALL routing orders (map-order choice) x ALL arrival orders of the fragment replies (unbounded) and reply segmentations (single cuts) within the bound; plus one 600/3000-key list; oracle: reference reassembly; non-trivial = >= 1 deviation; distinct = observable outcomes",
 		Scenarios: c07Scenarios, BudgetQuick: 90, BudgetThorough: 1200,
 		Assumptions: []string{"node model returns per-key values that embed the key"}})
 }
